@@ -238,6 +238,18 @@ class AbsEval(ConstEval):
         if isinstance(e.func, ast.Attribute):
             # method on an abstract value
             base = self.eval(e.func.value, env, mod)
+            if isinstance(base, Opaque) and base.what.startswith("class ") and "." in base.what[6:]:
+                cm, cn = base.what[6:].split(".", 1)
+                fm = self.M.find_method((cm, cn), e.func.attr)
+                if fm is not None and fm.kind in ("classmethod", "static", "method"):
+                    args = [self.eval(a, env, mod) for a in e.args]
+                    kw = {k.arg: self.eval(k.value, env, mod) for k in e.keywords if k.arg}
+                    first = [base] if fm.kind == "classmethod" else []
+                    return self.call_func(FuncRef(fm.mod, fm.node), first + args, kw)
+            if e.func.attr in ("match", "fullmatch", "search") and isinstance(base, Opaque):
+                pat = self.regex_of(base, mod)
+                if pat is not None:
+                    return self.regex_call(pat, e.func.attr, [self.eval(a, env, mod) for a in e.args])
             args = [self.eval(a, env, mod) for a in e.args]
             if isinstance(base, AObj):
                 m = base.attrs.get(e.func.attr)
@@ -267,7 +279,7 @@ class AbsEval(ConstEval):
                         raise AbsRaise(type(ex).__name__, str(ex))
                 if isinstance(base, str) and e.func.attr == "join":
                     return Res("join", base, *args)
-        if name in ("isinstance", "hasattr", "getattr", "next", "iter", "cast", "float", "int", "str", "round", "len", "bool", "abs", "datetime", "Decimal", "min", "max", "any", "all", "list", "tuple", "type", "divmod", "pow"):
+        if name in ("isinstance", "hasattr", "getattr", "next", "iter", "cast", "float", "int", "str", "round", "len", "bool", "abs", "datetime", "Decimal", "min", "max", "any", "all", "list", "tuple", "type", "divmod", "pow", "hash"):
             f = None
             if isinstance(e.func, ast.Name) and (e.func.id in env):
                 f = env[e.func.id]
@@ -279,6 +291,21 @@ class AbsEval(ConstEval):
                     return r
         if name in ("ValueError", "TypeError", "KeyError", "IndexError", "Exception", "AttributeError", "OverflowError", "RuntimeError", "NotImplementedError"):
             return ("exception", name)
+        # instantiation of a repository class: an abstract object initialised by the class's own __init__
+        try:
+            fv = self.eval(e.func, env, mod) if isinstance(e.func, (ast.Name, ast.Attribute)) else None
+        except (NotConstant, AbsRaise):
+            fv = None
+        if isinstance(fv, Opaque) and fv.what.startswith("class ") and "." in fv.what[6:]:
+            cm, cn = fv.what[6:].split(".", 1)
+            if (cm, cn) in self.M.classes:
+                obj = AObj(cn, {}, cls_key=(cm, cn))
+                init = self.M.find_method((cm, cn), "__init__")
+                if init is not None:
+                    args = [self.eval(a, env, mod) for a in e.args]
+                    kw = {k.arg: self.eval(k.value, env, mod) for k in e.keywords if k.arg}
+                    self.call_func(FuncRef(init.mod, init.node), [obj] + args, kw)
+                return obj
         try:
             return super().call(e, env, mod)
         except NotConstant as ex:
@@ -286,8 +313,46 @@ class AbsEval(ConstEval):
                 raise NotConstant(f"call {ftxt} with abstract arguments is outside the interpreter's summaries")
             raise
 
+    def regex_of(self, v, mod):
+        """pattern string of a module-level compiled regex (an Opaque whose initialiser is `<...>compile(<constant pattern>)`)"""
+        if isinstance(v, Opaque) and isinstance(v.node, (ast.Assign, ast.AnnAssign)) and isinstance(v.node.value, ast.Call) and "compile" in ast.unparse(v.node.value.func) \
+                and v.node.value.args and len(v.node.value.args) == 1 and not v.node.value.keywords:
+            try:
+                p = ConstEval.eval(self, v.node.value.args[0], {}, v.mod or mod)
+            except NotConstant:
+                return None
+            return p if isinstance(p, str) else None
+        return None
+
+    def regex_call(self, pattern, method, args):
+        """Python's re applied to a constant pattern of the program and a concrete string: the match as an abstract object"""
+        import re
+        if len(args) != 1 or not isinstance(args[0], str):
+            if args and (args[0] is None or isinstance(args[0], (int, float, AObj))):
+                raise AbsRaise("TypeError", "expected string")
+            raise NotConstant("regex applied to a non-concrete string")
+        m = getattr(re.compile(pattern), method)(args[0])
+        if m is None:
+            return None
+
+        def group(*names):
+            try:
+                r = m.group(*names)
+            except (IndexError, error_cls) as ex:  # noqa
+                raise AbsRaise("IndexError", str(ex))
+            return r
+        error_cls = re.error
+        return AObj("Match", {"group": group, "groupdict": (lambda: dict(m.groupdict())), "groups": (lambda: m.groups()), "start": m.start, "end": m.end, "span": m.span})
+
     def builtin(self, name, args, kw, node):
         a0 = args[0] if args else None
+        if name in ("int", "float", "str") and args and not any(is_abs(a) for a in args) and not kw and all(isinstance(a, (int, float, str, bool, bytes)) for a in args):
+            try:
+                return {"int": int, "float": float, "str": str}[name](*args)
+            except (ValueError, TypeError, OverflowError) as ex:
+                raise AbsRaise(type(ex).__name__, str(ex))
+        if name == "hash" and len(args) == 1:
+            return Res("hash", a0)
         if name == "isinstance" and len(args) == 2:
             t = pytype_of(a0)
             want = args[1]
